@@ -35,7 +35,7 @@
 From Coq Require Import ZArith List Lia Bool.
 From LZ4V Require Import Gen.Consts Spec.BlockSpec Spec.XXH32 Spec.FrameSpec Model.FrameC Model.FrameAudit
      Model.FrameD Proofs.FrameCBytes Proofs.FrameCBlocks Proofs.FrameCProofs Proofs.FrameCTheorems Proofs.FrameCExamples
-     Proofs.FrameRoundTrip.
+     Proofs.FrameRoundTrip Proofs.FrameCTotal.
 From LZ4V Require Proofs.FrameDProofs Proofs.FrameDChunk.
 Import ListNotations.
 Local Open Scope Z_scope.
@@ -138,6 +138,20 @@ Theorem C03_update_fuel_suffices :
   forall blk c src bc, 0 < c_maxBlock c -> fst (compressUpdateImpl blk c src bc) <> OutOfFuel.
 Proof. exact update_never_out_of_fuel. Qed.
 Print Assumptions C03_update_fuel_suffices.
+
+(* 5. "no call reports an error" is not a restriction: every legal session (preferences in range, raw dictionary
+      <= INT_MAX bytes, uncompressedUpdate only with independent blocks, declared content size absent or exact)
+      runs to the end in the model, and its frame decodes to the input.  Capacities are property C10's. *)
+Theorem C03_legal_session :
+  forall blk, blk_contract spec_decode blk ->
+  forall c0 po dk ms,
+  prefs_opt_ok po -> dict_fits dk -> uncompressed_only_if_independent po ms ->
+  len (mop_inputs ms) < U64 ->
+  (p_contentSize (eff_prefs po) = 0 \/ p_contentSize (eff_prefs po) = len (mop_inputs ms)) ->
+  exists F, session blk c0 po dk ms = Some (F, mop_inputs ms) /\
+            frame_decode spec_decode false (dict_of dk) F = Some (mop_inputs ms, []).
+Proof. exact c03_legal_session. Qed.
+Print Assumptions C03_legal_session.
 
 (* ---- the hypotheses are satisfiable, non-vacuously ---- *)
 (* a block compressor that really compresses (40 x 'a' -> 11 bytes) and meets the contract *)
